@@ -7,7 +7,7 @@ import json
 import os
 import random
 
-from harness import core, findings, pool, tlc
+from harness import core, findings, pool, pycorpus, tlc
 from harness.checks.c03 import HOSTILE
 
 PID = "C17"
@@ -255,6 +255,17 @@ def universe(tier, rng, streams):
             if "b'" in t and ord(ch) > 127:
                 continue
             add(t.replace("«»", ch) + "\n", {"py"})
+    # U8: the pure-Python corpus (harness/pycorpus.py: statements and embedded programs of CPython's own
+    # syntax tests as installed), judged with CPython's parser; texts with a CR that is not part of a CRLF
+    # are left out (control characters inside a line are not explored, see the assumptions)
+    import re as _re
+
+    for k, text, origin in pycorpus.load():
+        if _re.search(r"\r(?!\n)", text) or "\x0c" in text:
+            continue
+        if _re.search(r"coding[:=]", "\n".join(text.split("\n")[:2])):
+            continue  # an encoding declaration is about the bytes of a file, not about this text
+        scns.append({"src": text, "feat": features(text, {"py"}), "pyoracle": True})
     seen, uniq = set(), []
     for s in scns:
         if s["src"] not in seen:
@@ -322,7 +333,7 @@ def run(tier, seed, replay=None):
         "samples": [{"src": t["src"], "out": t["out"], "kind": t["steps"][0]["obs"]["kind"]} for t in out[len(out) // 2: len(out) // 2 + 3]],
         "evaluations": len(out),
         "distinct_nontrivial": len({t["src"] for t in out if t["steps"][0]["obs"].get("changed") and t["steps"][0]["obs"].get("premise")}),
-        "rule": "one case = a source text assembled from statement templates (Python simple/compound statements, subprocess lines, macros, multi-line and f-strings, comments) whose inter-token gaps are laid out compactly / with one space / with runs of spaces / with tabs / mixed, nested in blocks to depth 3 with indent unit tab/2/4/8, blank-line runs 0-3 (with blanks on them), trailing blanks, CRLF, with and without final newline; the real formatter's output is parsed by xonsh's own three-phase parser and compared with the parse of the input (string constants, subprocess arguments and macro bodies are constants of that tree), comment texts are compared, and the output is formatted again; inputs the tokenizer rejects go through the command-line entry point (file must stay untouched, non-zero exit); non-trivial = a parsable input the formatter actually changed; distinct by text",
+        "rule": "one case = a source text assembled from statement templates (Python simple/compound statements, subprocess lines, macros, multi-line and f-strings, comments) whose inter-token gaps are laid out compactly / with one space / with runs of spaces / with tabs / mixed, nested in blocks to depth 3 with indent unit tab/2/4/8, blank-line runs 0-3 (with blanks on them), trailing blanks, CRLF, with and without final newline; plus random atom sequences inside function-macro and alias-macro bodies (raw regions), line-boundary characters other than LF inside literals and comments, and about 18 000 statements / embedded programs of CPython's own syntax tests as installed (judged with CPython's parser); the real formatter's output is parsed by xonsh's own three-phase parser and compared with the parse of the input (string constants, subprocess arguments and macro bodies are constants of that tree), comment texts are compared, and the output is formatted again; inputs the tokenizer rejects go through the command-line entry point (file must stay untouched, non-zero exit); non-trivial = a parsable input the formatter actually changed; distinct by text",
         "outcomes": kinds,
         "inputs_within_premise": premise,
         "trace_validation": stats,
